@@ -105,6 +105,61 @@ func parseGoroutines(dump string) []gor {
 	return out
 }
 
+// currentGoroutine returns the id of the calling goroutine.
+func currentGoroutine() int {
+	var b [64]byte
+	n := runtime.Stack(b[:], false)
+	m := gorHead.FindStringSubmatch(string(b[:n]))
+	if m == nil {
+		return -1
+	}
+	id, _ := strconv.Atoi(m[1])
+	return id
+}
+
+// blockedSignature describes a deadlock: every walk goroutine is parked (it
+// waits for another goroutine) and so is every other goroutine which was
+// started since the baseline -- nobody is left who could wake the walk, and
+// no scheduler or machine load has any part in it.  The empty string means
+// "not blocked"; otherwise the result identifies the blocked state, so that
+// the caller can require it to persist.
+func blockedSignature(b baseline, walkers []int, self int) string {
+	gs := allGoroutines()
+	isWalker := map[int]bool{}
+	for _, w := range walkers {
+		if w <= 0 {
+			return ""
+		}
+		isWalker[w] = true
+	}
+	found := 0
+	var sig strings.Builder
+	for _, g := range gs {
+		if g.id == self {
+			continue
+		}
+		if isWalker[g.id] {
+			if !parked(g.state) {
+				return ""
+			}
+			found++
+			sig.WriteString(g.text)
+			continue
+		}
+		if b.ids[g.id] {
+			continue
+		}
+		if !parked(g.state) {
+			return ""
+		}
+		fmt.Fprintf(&sig, "|%d:%s", g.id, g.state)
+	}
+	if found != len(walkers) {
+		return "" // a walk has ended
+	}
+	return sig.String()
+}
+
 // parked reports whether a goroutine in this state can only be woken by
 // another goroutine (not by the scheduler, a timer or the kernel).
 func parked(state string) bool {
